@@ -252,6 +252,50 @@ func BuildService(fileName, pkg, name string, methods []MethodSpec) (protoreflec
 	return fd.Services().Get(0), nil
 }
 
+// BuildDeepService builds a service verif.deep.DeepSvc (method Unary over verif.v1.Msg) whose file
+// imports verif/deep/mid.proto, which in turn imports (plainly, not publicly) verif/deep/leaf.proto
+// with the message verif.deep.Leaf: a type the service's file cannot name, but that belongs to its
+// schema (import closure) and can travel inside a google.protobuf.Any. It also returns a resolver
+// over all the files.
+func BuildDeepService() (protoreflect.ServiceDescriptor, *dynamicpb.Types, error) {
+	str := func(s string) *string { return &s }
+	lbl := descriptorpb.FieldDescriptorProto_LABEL_OPTIONAL
+	tStr, tMsg := descriptorpb.FieldDescriptorProto_TYPE_STRING, descriptorpb.FieldDescriptorProto_TYPE_MESSAGE
+	one := int32(1)
+	leafP := &descriptorpb.FileDescriptorProto{Name: str("verif/deep/leaf.proto"), Package: str("verif.deep"), Syntax: str("proto3"),
+		MessageType: []*descriptorpb.DescriptorProto{{Name: str("Leaf"), Field: []*descriptorpb.FieldDescriptorProto{{Name: str("name"), Number: &one, Label: &lbl, Type: &tStr, JsonName: str("name")}}}}}
+	leaf, err := protodesc.NewFile(leafP, filesResolver{})
+	if err != nil {
+		return nil, nil, err
+	}
+	midP := &descriptorpb.FileDescriptorProto{Name: str("verif/deep/mid.proto"), Package: str("verif.deep"), Syntax: str("proto3"), Dependency: []string{"verif/deep/leaf.proto"},
+		MessageType: []*descriptorpb.DescriptorProto{{Name: str("Mid"), Field: []*descriptorpb.FieldDescriptorProto{{Name: str("leaf"), Number: &one, Label: &lbl, Type: &tMsg, TypeName: str(".verif.deep.Leaf"), JsonName: str("leaf")}}}}}
+	mid, err := protodesc.NewFile(midP, filesResolver{extra: []protoreflect.FileDescriptor{leaf}})
+	if err != nil {
+		return nil, nil, err
+	}
+	svcP := &descriptorpb.FileDescriptorProto{Name: str("verif/deep/svc.proto"), Package: str("verif.deep"), Syntax: str("proto3"),
+		Dependency: []string{"verif/v1/msg.proto", "verif/deep/mid.proto"},
+		Service: []*descriptorpb.ServiceDescriptorProto{{Name: str("DeepSvc"), Method: []*descriptorpb.MethodDescriptorProto{{Name: str("Unary"), InputType: str("." + MsgName), OutputType: str("." + MsgName)}}}}}
+	svc, err := protodesc.NewFile(svcP, filesResolver{extra: []protoreflect.FileDescriptor{MsgFile(), mid, leaf}})
+	if err != nil {
+		return nil, nil, err
+	}
+	var files protoregistry.Files
+	var add func(f protoreflect.FileDescriptor)
+	add = func(f protoreflect.FileDescriptor) {
+		if _, err := files.FindFileByPath(f.Path()); err == nil {
+			return
+		}
+		_ = files.RegisterFile(f)
+		for i := 0; i < f.Imports().Len(); i++ {
+			add(f.Imports().Get(i).FileDescriptor)
+		}
+	}
+	add(svc)
+	return svc.Services().Get(0), dynamicpb.NewTypes(&files), nil
+}
+
 // Standard service used by most checks.
 const (
 	SvcPkg  = "verif.v1"
